@@ -12,4 +12,4 @@ if [[ "$DEST" == src/* ]]; then
 	export SEED_TEST_CMD="$CMD"
 	CRATE=feather-build-rs
 fi
-/verif/tools/seed_verify.sh "$ID" "$OUT" "$DEST" "$CRATE" "$TEST" "$ID" "$@"
+MUTANT_HEAD="${MUTANT_HEAD:-1}" /verif/tools/seed_verify.sh "$ID" "$OUT" "$DEST" "$CRATE" "$TEST" "$ID" "$@"
